@@ -5,6 +5,7 @@ import (
 	"encoding/binary"
 	"errors"
 	"fmt"
+	"math"
 	"math/bits"
 	"time"
 
@@ -28,6 +29,12 @@ var errKVKey = errors.New("invalid encode kv key")
 var errInvalidDBValue = errors.New("invalide db value")
 var ErrBitOverflow = errors.New("bit offset overflowed")
 var errInvalidTTL = errors.New("invalid expire time")
+var errIncrOverflow = errors.New("increment or decrement would overflow")
+
+// incrWouldOverflow tells whether n + delta leaves the int64 range
+func incrWouldOverflow(n int64, delta int64) bool {
+	return (delta > 0 && n > math.MaxInt64-delta) || (delta < 0 && n < math.MinInt64-delta)
+}
 
 func convertRedisKeyToDBKVKey(key []byte) ([]byte, []byte, error) {
 	table, _, _ := extractTableFromRedisKey(key)
@@ -264,6 +271,9 @@ func (db *RockDB) incr(ts int64, key []byte, delta int64) (int64, error) {
 		if err != nil {
 			return 0, err
 		}
+	}
+	if incrWouldOverflow(n, delta) {
+		return 0, errIncrOverflow
 	}
 	n += delta
 	buf := FormatInt64ToSlice(n)
